@@ -372,6 +372,19 @@ func c04Bombs(limit int) []struct{ Name, Src string } {
 		{"closure-nest", bal("all(a,{", "true", "})")}, {"string", `"` + rep("a")}, {"string-closed", `"` + rep("\\n") + `"`},
 		{"digits", rep("9")}, {"ident", rep("x")}, {"commas", "[" + rep("1,")}, {"spaces", rep(" ") + "1"}, {"newlines", rep("\n") + "@"},
 		{"hash-chain", "all(a,{" + rep("#.")}, {"slice-chain", "a" + rep("[1:2]")}, {"multibyte", rep("é")}, {"invalid-utf8", rep("\xff")},
+		// allocation bombs: short inputs whose sizes wrap around the int range (a fatal out-of-memory error cannot be
+		// recovered by anybody, hence the child process); bounds more than MaxInt apart, built so that no fold removes them
+		{"range-desc-wrap", "9223360872354775806..(4611686018427387904 * 2)"},
+		{"range-desc-minint", "len(9223372036854775807..(-9223372036854775807 - 1))"},
+		{"range-desc-far", "4611686018427387904..(-4611686018427387904 - 10)"},
+		{"range-asc-wrap", "(-4611686018427387904 - 10)..4611686018427387904"},
+		{"range-asc-full", "(-9223372036854775807 - 1)..9223372036854775807"},
+		{"range-in-wrap", "1 in 9223360872354775806..(4611686018427387904 * 2)"},
+		{"range-env-wrap", "(I + 9223372036854775800)..(J - 9223372036854775800)"},
+		{"range-map-wrap", "map(9223372036854775800..(9223372036854775800 + 100), {#})"},
+		{"slice-wrap", "Ints[9223372036854775807:(-9223372036854775807 - 1)]"},
+		{"string-slice-wrap", "S[(4611686018427387904 * 2):9223372036854775807]"},
+		{"repeat-concat", "S + S + S + S + S + S + S + S"},
 	}
 }
 
